@@ -106,9 +106,10 @@ def register_cache(w):
     CH = ["self.chain is not None", "self.chain.config is self.config", "G.rootpath is None or G.rootpath == '' or G.rootpath == %s" % ROOT, "S.abs_root(%s)" % ROOT,
           "S.safe_sel(self.zipfilename)"]
     w.fields("VFSZip", dircache="dict[str,opaque:inode]")
-    w.contract(Z + "get_cache_filename", modifies=[], raises={}, returns="str", assumed=True, props=["C11", "C16", "C01"],
-               ensures=["S.safe_sel(result)"],
-               note="dirname(zipfilename)/.cache.pygopherd.zip3.<basename>: a sibling of the archive (path arithmetic over os.path.split/join; assumed safe as a sibling of a safe path)")
+    w.contract(Z + "get_cache_filename", requires=["S.safe_sel(self.zipfilename)"], modifies=[], raises={}, returns="str", props=["C11", "C16", "C01"],
+               ensures=["S.safe_sel(result)", "result != self.zipfilename", "result.endswith('.cache.pygopherd.zip3.' + os.path.split(self.zipfilename)[1])",
+                        "result.startswith(os.path.split(self.zipfilename)[0])"],
+               note="dirname(zipfilename)/.cache.pygopherd.zip3.<basename>: a sibling of the archive, never the archive itself (path arithmetic over os.path.split/join)")
     w.contract(Z + "populate_cache", modifies=["self.dircache", "self.entrycache", "self.invalid_paths"], raises={}, assumed=True, props=["C11", "C16"],
                note="builds the member index from the archive itself (bounded stand-in r_zip)")
     for m in ("save_cache", "init_cache"):
